@@ -5,6 +5,7 @@ package main
 // and Pin() is a sufficient store.
 
 import (
+	"bytes"
 	"context"
 	"fmt"
 	"sync"
@@ -75,6 +76,13 @@ func (m *memDag) Add(ctx context.Context, n ipld.Node) error {
 		m.mu.Unlock()
 		time.Sleep(120 * time.Millisecond)
 		m.mu.Lock()
+	case "manifest":
+		// entry blocks are written at once, manifests (CBOR maps with a "heads" key) take 300 ms
+		if bytes.Contains(n.RawData(), []byte("\x65heads")) {
+			m.mu.Unlock()
+			time.Sleep(300 * time.Millisecond)
+			m.mu.Lock()
+		}
 	}
 	if _, ok := m.blocks[n.Cid()]; !ok {
 		m.order = append(m.order, n.Cid())
